@@ -1,24 +1,866 @@
-//! C11 — not implemented yet (stub so that the registry compiles).
+//! C11 — key identity: every key name and code survives the trip from config to OS output.
+//!
+//! (1) exhaustive stepper run for every code 0..=766 the OS layer knows, in four identity
+//!     configurations; (2) every key name literal of `str_to_oscode` (extracted from the current
+//!     sources at run time) denotes the same, pinned, code in every position of the language;
+//! (3) `OsCode` and `KeyCode` coincide value for value (natively and in the enum declarations of the
+//!     current sources, against pinned tables cross-checked with the kernel header);
+//! (4) `Cfg.mapped_keys` equals the set computed from the generator's own description.
 
+#[path = "c11_ref.rs"]
+mod refs;
+
+use crate::core::rng::Rng;
+use crate::core::sim::{render_hist, Ev, OutKind, Sim};
 use crate::core::{CaseOut, Check, Ctx};
+use kanata_keyberon::action::{Action, Switch};
+use kanata_keyberon::key_code::KeyCode;
+use kanata_keyberon::layout::HistoricalEvent;
+use kanata_parser::cfg::OverrideStates;
+use kanata_parser::custom_action::CustomAction;
+use kanata_parser::keys::{str_to_oscode, OsCode};
+use serde_json::{json, Value};
+use std::collections::BTreeSet;
+use std::sync::OnceLock;
 
 pub struct C11Check;
 pub static C11: C11Check = C11Check;
+
+// ------------------------------------------------------------------ sources of the tree under test
+
+/// root of the repository the harness was built against (from the harness's own Cargo.toml)
+fn repo_root() -> String {
+    let toml = std::fs::read_to_string(concat!(env!("CARGO_MANIFEST_DIR"), "/Cargo.toml")).unwrap_or_default();
+    for line in toml.lines() {
+        if line.trim_start().starts_with("kanata-parser") {
+            if let Some(i) = line.find("path") {
+                let rest = &line[i..];
+                if let (Some(a), Some(b)) = (rest.find('"'), rest.rfind("/parser\"")) {
+                    if a + 1 <= b {
+                        return rest[a + 1..b].to_string();
+                    }
+                }
+            }
+        }
+    }
+    "/repo".into()
+}
+
+fn unescape(s: &str) -> String {
+    let mut out = String::new();
+    let mut it = s.chars();
+    while let Some(c) = it.next() {
+        if c == '\\' {
+            match it.next() {
+                Some('n') => out.push('\n'),
+                Some('t') => out.push('\t'),
+                Some(x) => out.push(x),
+                None => {}
+            }
+        } else {
+            out.push(c);
+        }
+    }
+    out
+}
+
+/// string literals of one source line (no raw strings occur in these tables)
+fn literals(line: &str) -> Vec<String> {
+    let mut out = vec![];
+    let b: Vec<char> = line.chars().collect();
+    let mut i = 0;
+    while i < b.len() {
+        if b[i] == '"' {
+            let mut j = i + 1;
+            let mut cur = String::new();
+            while j < b.len() && b[j] != '"' {
+                if b[j] == '\\' && j + 1 < b.len() {
+                    cur.push(b[j]);
+                    cur.push(b[j + 1]);
+                    j += 2;
+                } else {
+                    cur.push(b[j]);
+                    j += 1;
+                }
+            }
+            out.push(unescape(&cur));
+            i = j + 1;
+        } else if b[i] == '/' && i + 1 < b.len() && b[i + 1] == '/' {
+            break;
+        } else {
+            i += 1;
+        }
+    }
+    out
+}
+
+/// (name, OsCode variant it is written to denote) for every literal that applies on Linux
+fn extract_names(src: &str) -> Vec<(String, String)> {
+    let mut out = vec![];
+    let Some(f) = src.find("pub fn str_to_oscode") else { return out };
+    let body = &src[f..];
+    let (Some(a), Some(b)) = (body.find("Some(match s {"), body.find("_ => return None")) else { return out };
+    let mut cfg_attr: Option<String> = None;
+    for line in body[a..b].lines().skip(1) {
+        let t = line.trim();
+        if t.starts_with("#[cfg(") {
+            cfg_attr = Some(t.to_string());
+            continue;
+        }
+        if !t.starts_with('"') {
+            if !t.is_empty() && !t.starts_with("//") {
+                cfg_attr = None;
+            }
+            continue;
+        }
+        let applies = cfg_attr.as_ref().map(|c| c.contains("target_os = \"linux\"")).unwrap_or(true);
+        cfg_attr = None;
+        let Some(arrow) = t.rfind("=>") else { continue };
+        let target = t[arrow + 2..].trim().trim_end_matches(',').trim();
+        let Some(variant) = target.strip_prefix("OsCode::") else { continue };
+        if applies {
+            for l in literals(&t[..arrow]) {
+                out.push((l, variant.to_string()));
+            }
+        }
+    }
+    if let Some(d) = src.find("const DEFAULT_MAPPINGS") {
+        let dm = &src[d..];
+        if let Some(e) = dm.find("];") {
+            for line in dm[..e].lines() {
+                let t = line.trim();
+                if !t.starts_with("(\"") {
+                    continue;
+                }
+                let ls = literals(t);
+                if let (Some(name), Some(p)) = (ls.first(), t.find("OsCode::")) {
+                    let v: String = t[p + 8..].chars().take_while(|c| c.is_ascii_alphanumeric() || *c == '_').collect();
+                    out.push((name.clone(), v));
+                }
+            }
+        }
+    }
+    out
+}
+
+/// variants of `pub enum <name> { ... }` with their discriminants
+fn extract_enum(src: &str, name: &str) -> Vec<(String, u32)> {
+    let mut out = vec![];
+    let Some(a) = src.find(&format!("pub enum {name} {{")) else { return out };
+    let body = &src[a..];
+    let Some(e) = body.find("\n}") else { return out };
+    let mut next = 0u32;
+    for line in body[..e].lines().skip(1) {
+        let t = line.split("//").next().unwrap_or("").trim();
+        if t.is_empty() || t.starts_with('#') {
+            continue;
+        }
+        let t = t.trim_end_matches(',');
+        let (n, v) = match t.split_once('=') {
+            Some((n, v)) => {
+                let v = v.trim();
+                let val = if let Some(h) = v.strip_prefix("0x") { u32::from_str_radix(h, 16).ok() } else { v.parse().ok() };
+                (n.trim(), val)
+            }
+            None => (t, None),
+        };
+        if !n.chars().all(|c| c.is_ascii_alphanumeric() || c == '_') || n.is_empty() {
+            continue;
+        }
+        if let Some(v) = v {
+            next = v;
+        }
+        out.push((n.to_string(), next));
+        next += 1;
+    }
+    out
+}
+
+struct Sources {
+    root: String,
+    names: Vec<(String, String)>,
+    keycode_enum: Vec<(String, u32)>,
+    oscode_enum: Vec<(String, u32)>,
+}
+
+fn sources() -> &'static Sources {
+    static S: OnceLock<Sources> = OnceLock::new();
+    S.get_or_init(|| {
+        let root = repo_root();
+        let keys_src = std::fs::read_to_string(format!("{root}/parser/src/keys/mod.rs")).unwrap_or_default();
+        let kc_src = std::fs::read_to_string(format!("{root}/keyberon/src/key_code.rs")).unwrap_or_default();
+        Sources { names: extract_names(&keys_src), keycode_enum: extract_enum(&kc_src, "KeyCode"), oscode_enum: extract_enum(&keys_src, "OsCode"), root }
+    })
+}
+
+fn pinned_keycode_names() -> Vec<&'static str> {
+    refs::KEYCODE_NAMES.split(' ').collect()
+}
+fn pinned_oscode_names() -> Vec<&'static str> {
+    refs::OSCODE_NAMES.split(' ').collect()
+}
+
+fn kc_of(code: u16) -> Option<KeyCode> {
+    OsCode::from_u16(code).map(KeyCode::from)
+}
+
+// ------------------------------------------------------------------ part 1: stepper, all codes
+
+const CODES_PER_CASE: u64 = 8;
+const N_CODES: u64 = 767; // 0..=766
+
+#[derive(Debug, PartialEq, Clone)]
+enum Exp {
+    Nothing,
+    Key(String),
+    Btn(&'static str),
+    Scroll(&'static str),
+}
+
+/// expected OS-level effect of pressing and releasing a key that is mapped to itself
+fn expected_identity(c: u16) -> Exp {
+    match c {
+        0 => Exp::Nothing,                 // index 0 of every layer is a no-op by construction
+        0x2a4..=0x2ad => Exp::Nothing,     // nop0..nop9: reserved, never sent to the OS
+        272 => Exp::Btn("Left"),
+        273 => Exp::Btn("Right"),
+        274 => Exp::Btn("Mid"),
+        275 => Exp::Btn("Backward"),
+        276 => Exp::Btn("Forward"),
+        745 => Exp::Scroll("Up,120"),
+        746 => Exp::Scroll("Down,120"),
+        747 => Exp::Scroll("Left,120"),
+        748 => Exp::Scroll("Right,120"),
+        _ => Exp::Key(pinned_keycode_names().get(c as usize).copied().unwrap_or("?").to_string()),
+    }
+}
+
+const MODES: [&str; 4] = ["defsrc-self", "transparent", "use-defsrc", "unmapped-processed"];
+
+fn identity_config(c: u16, mode: usize) -> String {
+    let n = format!("zz{c}");
+    match mode {
+        0 => format!("(deflocalkeys-linux {n} {c})\n(defcfg process-unmapped-keys no)\n(defsrc {n})\n(deflayer l {n})\n"),
+        1 => format!("(deflocalkeys-linux {n} {c})\n(defcfg process-unmapped-keys no)\n(defsrc {n})\n(deflayer l _)\n"),
+        2 => format!("(deflocalkeys-linux {n} {c})\n(defcfg process-unmapped-keys no)\n(defsrc {n})\n(deflayer l use-defsrc)\n"),
+        _ => {
+            let other = if c == 30 { "b" } else { "a" };
+            format!("(defcfg process-unmapped-keys yes)\n(defsrc {other})\n(deflayer l {other})\n")
+        }
+    }
+}
+
+fn run_stepper(out: &mut CaseOut, idx: u64) {
+    for c in (idx * CODES_PER_CASE)..((idx + 1) * CODES_PER_CASE).min(N_CODES) {
+        let c = c as u16;
+        if OsCode::from_u16(c).is_none() {
+            out.inc("stepper_codes_unknown_to_the_os_layer");
+            continue;
+        }
+        out.inc("stepper_codes");
+        let want = expected_identity(c);
+        match &want {
+            Exp::Nothing => out.inc("stepper_expected_silent"),
+            Exp::Key(_) => out.inc("stepper_expected_identity"),
+            Exp::Btn(_) => out.inc("stepper_expected_mouse_button"),
+            Exp::Scroll(_) => out.inc("stepper_expected_scroll"),
+        }
+        for (mi, mode) in MODES.iter().enumerate() {
+            let cfg = identity_config(c, mi);
+            let h = vec![Ev::P(c), Ev::T(3), Ev::R(c), Ev::T(3)];
+            let mut sim = match Sim::new(&cfg) {
+                Ok(s) => s,
+                Err(e) => {
+                    out.violate(
+                        format!("C11:stepper:config-rejected:{mode}"),
+                        format!("identity configuration for code {c} rejected"),
+                        json!({"config": cfg, "history": render_hist(&h), "observed": e, "expected": "accepted"}),
+                    );
+                    continue;
+                }
+            };
+            sim.run(&h);
+            out.inc("stepper_runs");
+            let got: Vec<(OutKind, String)> = sim.normalized().into_iter().map(|o| (o.kind, o.name)).collect();
+            let exp: Vec<(OutKind, String)> = match &want {
+                Exp::Nothing => vec![],
+                Exp::Key(n) => vec![(OutKind::Down, n.clone()), (OutKind::Up, n.clone())],
+                Exp::Btn(b) => vec![(OutKind::BtnDown, b.to_string()), (OutKind::BtnUp, b.to_string())],
+                Exp::Scroll(s) => vec![(OutKind::Scroll, s.to_string())],
+            };
+            if got != exp {
+                let class = match (&want, got.is_empty()) {
+                    (Exp::Nothing, _) => "reserved-code-reached-os",
+                    (_, true) => "nothing-emitted",
+                    _ => "different-code",
+                };
+                out.violate(
+                    format!("C11:stepper:{class}:{mode}"),
+                    format!("code {c} mapped to itself ({mode}) produced {:?}, expected {:?}", sim.trace_short(), exp),
+                    json!({"config": cfg, "history": render_hist(&h), "observed": sim.trace_short(), "expected": format!("{exp:?}"), "code": c}),
+                );
+            }
+            if !sim.os.all_up() {
+                out.violate(
+                    format!("C11:stepper:stuck:{mode}"),
+                    format!("code {c}: something is still held after the release"),
+                    json!({"config": cfg, "history": render_hist(&h), "observed": sim.os.describe(), "expected": "nothing held"}),
+                );
+            }
+        }
+        out.tag(format!("code:{c}"));
+    }
+}
+
+// ------------------------------------------------------------------ part 2: name table
+
+const NAMES_PER_CASE: usize = 8;
+/// names that are action keywords when written as an action (mouse pseudo keys)
+const ACTION_SHADOWED: &[&str] = &[
+    "mlft", "mouseleft", "mrgt", "mouseright", "mmid", "mousemid", "mfwd", "mouseforward", "mbck", "mousebackward", "mwu", "mousewheelup",
+    "mwd", "mousewheeldown", "mwl", "mousewheelleft", "mwr", "mousewheelright",
+];
+const MOD_CODES: [u16; 8] = [29, 42, 56, 125, 97, 54, 100, 126];
+
+fn name_config(n: &str, c: u16) -> (String, [&'static str; 4]) {
+    // helper keys that are not the key under test
+    let pool = ["q", "w", "e", "r", "t", "y"];
+    let hs: Vec<&'static str> = pool.iter().copied().filter(|h| str_to_oscode(h).map(|o| o.as_u16()) != Some(c)).collect();
+    let h = [hs[0], hs[1], hs[2], hs[3]];
+    let is_mod = MOD_CODES.contains(&c);
+    let (ov_in, ov_out) = if is_mod { (format!("({n} {})", h[3]), format!("({n} {})", h[3])) } else { (format!("({n})"), format!("({n})")) };
+    let s = format!(
+        "(defcfg process-unmapped-keys no)\n(defsrc {n})\n(deflayer l0 {act})\n(deflayermap (l1) {n} {h0})\n(defalias\n fk (fork {h0} {h1} ({n}))\n sw (switch ({n}) {h0} break)\n kh (switch ((key-history {n} 1)) {h0} break)\n in (switch ((input real {n})) {h0} break)\n um (unmod {n})\n)\n(deflayermap (l2) {h0} @fk {h1} @sw {h2} @um {h3} @kh u @in)\n(defoverrides {ov_in} ({h0}) ({h1}) {ov_out})\n",
+        act = if ACTION_SHADOWED.contains(&n) { "XX" } else { n },
+        h0 = h[0],
+        h1 = h[1],
+        h2 = h[2],
+        h3 = h[3],
+    );
+    (s, h)
+}
+
+fn code_of(name: &str) -> u16 {
+    str_to_oscode(name).map(|o| o.as_u16()).unwrap_or(u16::MAX)
+}
+
+fn switch_true_codes<T>(sw: &Switch<T>, mode: u8) -> Vec<u16> {
+    // for which single code does the one-case switch fire? mode 0: active key, 1: key-history slot 1, 2: real input
+    let mut v = vec![];
+    for c in 0..767u16 {
+        let Some(k) = kc_of(c) else { continue };
+        let ak: Vec<KeyCode> = if mode == 0 { vec![k] } else { vec![] };
+        let hk: Vec<HistoricalEvent<KeyCode>> = if mode == 1 { vec![HistoricalEvent { event: k, ticks_since_occurrence: 1 }] } else { vec![] };
+        let co: Vec<(u8, u16)> = if mode == 2 { vec![(0, c)] } else { vec![] };
+        let hi: Vec<HistoricalEvent<(u8, u16)>> = vec![];
+        let l: Vec<u16> = vec![0];
+        if sw.actions(ak.iter().copied(), co.iter().copied(), hk.iter().copied(), hi.iter().copied(), l.iter().copied(), 0).next().is_some() {
+            v.push(c);
+        }
+    }
+    v
+}
+
+fn run_names(out: &mut CaseOut, idx: u64) {
+    let src = sources();
+    let pinned: std::collections::HashMap<&str, u16> = refs::KEY_NAMES.iter().copied().collect();
+    let os_names = pinned_oscode_names();
+    let lo = idx as usize * NAMES_PER_CASE;
+    for (name, variant) in src.names.iter().skip(lo).take(NAMES_PER_CASE) {
+        out.inc("names");
+        out.tag(format!("name:{name}"));
+        // the code this name must denote: pinned table; names added after pinning fall back to the
+        // declaration they are written next to
+        let declared = os_names.iter().position(|v| v == variant).map(|p| p as u16);
+        let want: u16 = match pinned.get(name.as_str()) {
+            Some(c) => {
+                out.inc("names_with_pinned_code");
+                *c
+            }
+            None => {
+                out.inc("names_not_in_pinned_table");
+                match declared {
+                    Some(c) => c,
+                    None => continue,
+                }
+            }
+        };
+        let mut bad = |out: &mut CaseOut, pos: &str, observed: String, cfg: &str| {
+            out.violate(
+                format!("C11:name:{pos}"),
+                format!("key name \"{name}\" denotes {observed} in position {pos}, expected code {want}"),
+                json!({"config": cfg, "history": "(parse only)", "observed": observed, "expected": want, "name": name}),
+            );
+        };
+        // the function itself
+        let direct = code_of(name);
+        if direct != want {
+            bad(out, "str_to_oscode", format!("{direct}"), "");
+        }
+        let (cfg_text, h) = name_config(name, want);
+        let cfg = match kanata_parser::cfg::new_from_str(&cfg_text, Default::default()) {
+            Ok(c) => c,
+            Err(e) => {
+                out.inc("names_config_rejected");
+                bad(out, "config-rejected", format!("{e:?}").lines().take(12).collect::<Vec<_>>().join(" | "), &cfg_text);
+                continue;
+            }
+        };
+        let l = cfg.layout.b();
+        let hc: Vec<u16> = h.iter().map(|x| code_of(x)).collect();
+        // defsrc + deflayermap inputs
+        let mapped: BTreeSet<u16> = cfg.mapped_keys.iter().map(|o| o.as_u16()).collect();
+        let mut exp_mapped: BTreeSet<u16> = hc.iter().copied().collect();
+        exp_mapped.insert(code_of("u"));
+        exp_mapped.insert(want);
+        if mapped != exp_mapped {
+            bad(out, "defsrc", format!("mapped keys {mapped:?}"), &cfg_text);
+        } else {
+            out.inc("names_ok_defsrc");
+        }
+        // action on l0 at the coordinate of `want`
+        if !ACTION_SHADOWED.contains(&name.as_str()) && want != 0 {
+            match (&l.layers[0][0][want as usize], kc_of(want)) {
+                (Action::KeyCode(k), Some(w)) if *k == w => out.inc("names_ok_action"),
+                (other, _) => bad(out, "action", format!("{other:?}"), &cfg_text),
+            }
+        } else {
+            out.inc("names_action_position_skipped");
+        }
+        // deflayermap input: l1 at `want` holds the helper key h0
+        if want != 0 {
+            match (&l.layers[1][0][want as usize], kc_of(hc[0])) {
+                (Action::KeyCode(k), Some(w)) if *k == w => out.inc("names_ok_deflayermap_input"),
+                (other, _) => bad(out, "deflayermap-input", format!("{other:?} at coordinate {want}"), &cfg_text),
+            }
+        }
+        // fork trigger
+        match &l.layers[2][0][hc[0] as usize] {
+            Action::Fork(f) if f.right_triggers.len() == 1 && Some(f.right_triggers[0]) == kc_of(want) => out.inc("names_ok_fork"),
+            other => bad(out, "fork", format!("{other:?}"), &cfg_text),
+        }
+        // switch: bare key, key-history, input
+        for (coord, mode, pos) in [(hc[1], 0u8, "switch-key"), (hc[3], 1, "switch-key-history"), (code_of("u"), 2, "switch-input")] {
+            match &l.layers[2][0][coord as usize] {
+                Action::Switch(sw) => {
+                    let t = switch_true_codes(sw, mode);
+                    out.count("names_switch_evaluations", 749);
+                    if t == vec![want] {
+                        out.inc(&format!("names_ok_{pos}"));
+                    } else {
+                        bad(out, pos, format!("true exactly for codes {t:?}"), &cfg_text);
+                    }
+                }
+                other => bad(out, pos, format!("{other:?}"), &cfg_text),
+            }
+        }
+        // unmod
+        match &l.layers[2][0][hc[2] as usize] {
+            Action::Custom(cs) => {
+                let mut ok = false;
+                for c in cs.iter() {
+                    if let CustomAction::Unmodded { keys, .. } = c {
+                        ok = keys.len() == 1 && Some(keys[0]) == kc_of(want);
+                    }
+                }
+                if ok {
+                    out.inc("names_ok_unmod");
+                } else {
+                    bad(out, "unmod", format!("{cs:?}"), &cfg_text);
+                }
+            }
+            other => bad(out, "unmod", format!("{other:?}"), &cfg_text),
+        }
+        // defoverrides: input side and output side
+        let is_mod = MOD_CODES.contains(&want);
+        let mut st = OverrideStates::new();
+        let as_codes = |v: &Vec<KeyCode>| -> BTreeSet<u16> { v.iter().map(|k| u16::from(OsCode::from(*k))).collect() };
+        if let (Some(w), Some(k0), Some(k1), Some(k3)) = (kc_of(want), kc_of(hc[0]), kc_of(hc[1]), kc_of(hc[3])) {
+            let mut v = if is_mod { vec![w, k3] } else { vec![w] };
+            cfg.overrides.override_keys(&mut v, &mut st);
+            if as_codes(&v) == [hc[0]].into_iter().collect() {
+                out.inc("names_ok_override_input");
+            } else {
+                bad(out, "defoverrides-input", format!("{:?} -> {:?}", if is_mod { vec![want, hc[3]] } else { vec![want] }, as_codes(&v)), &cfg_text);
+            }
+            let mut v = vec![k1];
+            cfg.overrides.override_keys(&mut v, &mut st);
+            let exp: BTreeSet<u16> = if is_mod { [want, hc[3]].into_iter().collect() } else { [want].into_iter().collect() };
+            if as_codes(&v) == exp {
+                out.inc("names_ok_override_output");
+            } else {
+                bad(out, "defoverrides-output", format!("{:?} -> {:?}", vec![hc[1]], as_codes(&v)), &cfg_text);
+            }
+            let _ = k0;
+        }
+        // aliases written in one match arm agree with the declaration they are written next to
+        if let Some(d) = declared {
+            if d != want {
+                bad(out, "source-arm", format!("written next to OsCode::{variant} = {d}"), "");
+            }
+        }
+    }
+}
+
+// ------------------------------------------------------------------ part 3: code spaces coincide
+
+fn run_enums(out: &mut CaseOut) {
+    let src = sources();
+    let kcn = pinned_keycode_names();
+    let ocn = pinned_oscode_names();
+    let mut bad = |out: &mut CaseOut, sig: &str, what: String, observed: Value, expected: Value| {
+        out.violate(format!("C11:codespace:{sig}"), what, json!({"config": "(none)", "history": "(none)", "observed": observed, "expected": expected, "sources": src.root}));
+    };
+    // natively, every code
+    let mut known = 0u64;
+    for c in 0..=767u16 {
+        let Some(osc) = OsCode::from_u16(c) else { continue };
+        known += 1;
+        out.inc("codes_checked_natively");
+        if osc.as_u16() != c || u16::from(osc) != c {
+            bad(out, "from_u16-as_u16", format!("from_u16({c}).as_u16() = {}", osc.as_u16()), json!(osc.as_u16()), json!(c));
+        }
+        let kc = KeyCode::from(osc);
+        if kc as u16 != u16::from(osc) {
+            bad(out, "value-differs", format!("OsCode {osc:?} = {} but KeyCode {kc:?} = {}", u16::from(osc), kc as u16), json!(kc as u16), json!(c));
+        }
+        let back = OsCode::from(kc);
+        if back != osc || KeyCode::from(&osc) != kc {
+            bad(out, "roundtrip", format!("{osc:?} -> {kc:?} -> {back:?}"), json!(format!("{back:?}")), json!(format!("{osc:?}")));
+        }
+        // the conversion must land on the variant that carries this value in both declarations
+        let kn = format!("{kc:?}");
+        if kcn.get(c as usize).copied() != Some(kn.as_str()) {
+            bad(out, "keycode-variant-at-value", format!("value {c} is KeyCode::{kn}, pinned KeyCode::{}", kcn.get(c as usize).copied().unwrap_or("?")), json!(kn), json!(kcn.get(c as usize)));
+        }
+        let on = format!("{osc:?}");
+        if ocn.get(c as usize).copied() != Some(on.as_str()) {
+            bad(out, "oscode-variant-at-value", format!("value {c} is OsCode::{on}, pinned OsCode::{}", ocn.get(c as usize).copied().unwrap_or("?")), json!(on), json!(ocn.get(c as usize)));
+        }
+    }
+    out.max("codes_known_to_from_u16", known);
+    // a few anchors written with variant names in kanata's own logic
+    let anchors: [(KeyCode, OsCode, u16); 10] = [
+        (KeyCode::LShift, OsCode::KEY_LEFTSHIFT, 42),
+        (KeyCode::RShift, OsCode::KEY_RIGHTSHIFT, 54),
+        (KeyCode::LCtrl, OsCode::KEY_LEFTCTRL, 29),
+        (KeyCode::RCtrl, OsCode::KEY_RIGHTCTRL, 97),
+        (KeyCode::LAlt, OsCode::KEY_LEFTALT, 56),
+        (KeyCode::RAlt, OsCode::KEY_RIGHTALT, 100),
+        (KeyCode::LGui, OsCode::KEY_LEFTMETA, 125),
+        (KeyCode::RGui, OsCode::KEY_RIGHTMETA, 126),
+        (KeyCode::A, OsCode::KEY_A, 30),
+        (KeyCode::BSpace, OsCode::KEY_BACKSPACE, 14),
+    ];
+    for (k, o, v) in anchors {
+        out.inc("anchor_variants_checked");
+        if k as u16 != v || o.as_u16() != v || OsCode::from(k) != o {
+            bad(out, "anchor", format!("{k:?}={} {o:?}={} expected {v}", k as u16, o.as_u16()), json!([k as u16, o.as_u16()]), json!(v));
+        }
+    }
+    // the declarations in the current sources
+    for (which, decl, pinned) in [("KeyCode", &src.keycode_enum, &kcn), ("OsCode", &src.oscode_enum, &ocn)] {
+        out.count(&format!("declared_variants_{which}"), decl.len() as u64);
+        if decl.is_empty() {
+            out.inconclusive = Some(format!("could not read the {which} declaration from {}", src.root));
+            continue;
+        }
+        let mut seen: BTreeSet<u32> = BTreeSet::new();
+        for (n, v) in decl.iter() {
+            if !seen.insert(*v) {
+                bad(out, "duplicate-discriminant", format!("{which}::{n} repeats discriminant {v}"), json!(n), json!(v));
+            }
+            match pinned.get(*v as usize) {
+                Some(p) if p == n => {}
+                Some(p) => bad(out, "declaration-renumbered", format!("{which}::{n} = {v} in the sources; pinned {which}::{p} = {v}"), json!(n), json!(p)),
+                None => bad(out, "declaration-out-of-range", format!("{which}::{n} = {v}"), json!(v), json!("0..=767")),
+            }
+        }
+        if decl.len() != pinned.len() {
+            bad(out, "declaration-count", format!("{which} declares {} variants, pinned {}", decl.len(), pinned.len()), json!(decl.len()), json!(pinned.len()));
+        }
+    }
+    let a: BTreeSet<u32> = src.keycode_enum.iter().map(|x| x.1).collect();
+    let b: BTreeSet<u32> = src.oscode_enum.iter().map(|x| x.1).collect();
+    if a != b && !a.is_empty() && !b.is_empty() {
+        let only_k: Vec<&u32> = a.difference(&b).collect();
+        let only_o: Vec<&u32> = b.difference(&a).collect();
+        bad(out, "discriminant-sets-differ", "the discriminant sets of KeyCode and OsCode differ: a transmute between them is undefined behaviour for these values".into(), json!({"only_KeyCode": only_k, "only_OsCode": only_o}), json!("equal sets"));
+    }
+    out.tag("enums");
+    out.sample = Some(json!({"part": "code spaces", "sources": src.root, "keycode_variants": src.keycode_enum.len(), "oscode_variants": src.oscode_enum.len(), "names_extracted": src.names.len()}));
+}
+
+// ------------------------------------------------------------------ part 4: mapped set
+
+struct MapCase {
+    cfg: String,
+    expected: BTreeSet<u16>,
+    class: String,
+}
+
+fn make_mapped(ctx: &Ctx, r: u64) -> MapCase {
+    let mut rng = Rng::for_case(ctx.seed, "C11", "mapped", r);
+    // key pool: pinned names (one per code) and a few local keys
+    let mut by_code: std::collections::BTreeMap<u16, Vec<&str>> = Default::default();
+    for (n, c) in refs::KEY_NAMES {
+        if *c != 0 {
+            by_code.entry(*c).or_default().push(n);
+        }
+    }
+    let codes: Vec<u16> = by_code.keys().copied().collect();
+    let local: Vec<(String, u16)> = (0..rng.usize(4)).map(|_| loop {
+        let c = rng.range(1, 748) as u16;
+        if OsCode::from_u16(c).is_some() && !by_code.contains_key(&c) && c != 240 {
+            break (format!("zz{c}"), c);
+        }
+    }).collect();
+    let pick_key = |rng: &mut Rng| -> (String, u16) {
+        if !local.is_empty() && rng.chance(1, 5) {
+            rng.pick(&local).clone()
+        } else {
+            let c = *rng.pick(&codes);
+            (rng.pick(&by_code[&c]).to_string(), c)
+        }
+    };
+    let mut s = String::new();
+    if !local.is_empty() {
+        s.push_str("(deflocalkeys-linux");
+        let mut seen = BTreeSet::new();
+        for (n, c) in &local {
+            if seen.insert(*c) {
+                s.push_str(&format!(" {n} {c}"));
+            }
+        }
+        s.push_str(")\n");
+    }
+    let mut expected: BTreeSet<u16> = BTreeSet::new();
+    // defsrc
+    let mut src: Vec<(String, u16)> = vec![];
+    let nsrc = *rng.pick_weighted(&[(1u32, 0usize), (3, 1), (3, 3), (3, 8), (1, 30)]);
+    while src.len() < nsrc {
+        let k = pick_key(&mut rng);
+        if !src.iter().any(|x| x.1 == k.1) {
+            src.push(k);
+        }
+    }
+    // process-unmapped-keys
+    let pu = rng.usize(4); // 0 no, 1 yes, 2/3 all-except
+    let mut exc: Vec<(String, u16)> = vec![];
+    if pu >= 2 {
+        let n = *rng.pick(&[1usize, 2, 5, 12]);
+        let mut guard = 0;
+        while exc.len() < n && guard < 200 {
+            guard += 1;
+            let k = pick_key(&mut rng);
+            if !src.iter().any(|x| x.1 == k.1) && !exc.iter().any(|x| x.1 == k.1) {
+                exc.push(k);
+            }
+        }
+    }
+    s.push_str("(defcfg process-unmapped-keys ");
+    match pu {
+        0 => s.push_str("no"),
+        1 => s.push_str("yes"),
+        _ => {
+            s.push_str("(all-except");
+            for (n, _) in &exc {
+                s.push(' ');
+                s.push_str(n);
+            }
+            s.push(')');
+        }
+    }
+    if rng.chance(1, 4) {
+        s.push_str(" block-unmapped-keys yes");
+    }
+    s.push_str(")\n(defsrc");
+    for (n, c) in &src {
+        s.push(' ');
+        s.push_str(n);
+        expected.insert(*c);
+    }
+    s.push_str(")\n");
+    // layers
+    let nl = rng.range(1, 3);
+    let mut n_inputs = 0;
+    for li in 0..nl {
+        if rng.coin() {
+            s.push_str(&format!("(deflayer l{li}"));
+            for _ in &src {
+                s.push_str(*rng.pick(&[" _", " XX", " a", " lsft", " (tap-hold 200 200 a b)"]));
+            }
+            s.push_str(")\n");
+        } else {
+            s.push_str(&format!("(deflayermap (l{li})"));
+            let n = *rng.pick(&[0usize, 1, 2, 6]);
+            let mut ins: Vec<u16> = vec![];
+            for _ in 0..n {
+                // inputs may repeat defsrc keys and may be excepted keys
+                let k = if !exc.is_empty() && rng.chance(1, 6) { rng.pick(&exc).clone() } else if !src.is_empty() && rng.chance(1, 4) { rng.pick(&src).clone() } else { pick_key(&mut rng) };
+                if ins.contains(&k.1) {
+                    continue;
+                }
+                ins.push(k.1);
+                s.push_str(&format!(" {} {}", k.0, *rng.pick(&["a", "XX", "(layer-while-held l0)", "lctl"])));
+                expected.insert(k.1);
+                n_inputs += 1;
+            }
+            match rng.usize(6) {
+                0 => s.push_str(" _ b"),
+                1 if pu != 0 => s.push_str(" __ c"),
+                2 if pu != 0 => s.push_str(" ___ d"),
+                _ => {}
+            }
+            s.push_str(")\n");
+        }
+    }
+    if pu != 0 {
+        for c in 1..767u16 {
+            if OsCode::from_u16(c).is_some() && !exc.iter().any(|x| x.1 == c) {
+                expected.insert(c);
+            }
+        }
+    }
+    MapCase { cfg: s, expected, class: format!("map:pu{}:src{}:in{}:exc{}:loc{}", pu.min(2), nsrc, n_inputs, exc.len(), local.len()) }
+}
+
+/// codes whose membership in the "all known keys" part the statement does not decide
+const UNDECIDED: [u16; 2] = [0, 240];
+
+fn run_mapped(out: &mut CaseOut, ctx: &Ctx, r: u64) {
+    let mc = make_mapped(ctx, r);
+    let cfg = match kanata_parser::cfg::new_from_str(&mc.cfg, Default::default()) {
+        Ok(c) => c,
+        Err(e) => {
+            out.inc("mapped_configs_rejected");
+            if ctx.verbose {
+                eprintln!("rejected:\n{}\n{e:?}", mc.cfg);
+            }
+            return;
+        }
+    };
+    out.inc("mapped_configs");
+    out.tag(mc.class.clone());
+    let mut got: BTreeSet<u16> = cfg.mapped_keys.iter().map(|o| o.as_u16()).collect();
+    let mut exp = mc.expected.clone();
+    for u in UNDECIDED {
+        if got.contains(&u) && !exp.contains(&u) {
+            out.inc(&format!("mapped_contains_undecided_code_{u}"));
+        }
+        got.remove(&u);
+        exp.remove(&u);
+    }
+    out.max("mapped_set_size", got.len() as u64);
+    if got.len() < 700 {
+        out.inc("mapped_small_sets");
+    } else {
+        out.inc("mapped_process_unmapped_sets");
+    }
+    if got != exp {
+        let extra: Vec<&u16> = got.difference(&exp).collect();
+        let missing: Vec<&u16> = exp.difference(&got).collect();
+        let sig = if !missing.is_empty() && extra.is_empty() { "C11:mapped:key-missing" } else if missing.is_empty() { "C11:mapped:key-extra" } else { "C11:mapped:differs" };
+        out.violate(
+            sig,
+            format!("Cfg.mapped_keys differs from defsrc + deflayermap inputs (+ all known keys - exceptions): extra {extra:?}, missing {missing:?}"),
+            json!({"config": mc.cfg, "history": "(parse only)", "observed": {"extra": extra, "missing": missing, "size": got.len()}, "expected": {"size": exp.len()}}),
+        );
+    }
+    if r % 300 == 2 {
+        out.sample = Some(json!({"part": "mapped set", "config": mc.cfg, "mapped_keys": got.len()}));
+    }
+}
+
+// ------------------------------------------------------------------ the check
+
+fn n_stepper() -> u64 {
+    (N_CODES + CODES_PER_CASE - 1) / CODES_PER_CASE
+}
+fn n_names() -> u64 {
+    ((sources().names.len() + NAMES_PER_CASE - 1) / NAMES_PER_CASE) as u64
+}
+fn n_mapped(ctx: &Ctx) -> u64 {
+    ctx.tier.sel(10_000, 100_000)
+}
 
 impl Check for C11Check {
     fn id(&self) -> &'static str {
         "C11"
     }
-    fn n_cases(&self, _ctx: &Ctx) -> u64 {
-        0
+    fn n_cases(&self, ctx: &Ctx) -> u64 {
+        n_stepper() + n_names() + 1 + n_mapped(ctx)
     }
-    fn run_case(&self, _ctx: &Ctx, _idx: u64) -> CaseOut {
-        CaseOut::new()
+    fn describe(&self, ctx: &Ctx, idx: u64) -> Value {
+        let (a, b) = (n_stepper(), n_names());
+        if idx < a {
+            json!({"part": "stepper", "codes": format!("{}..{}", idx * CODES_PER_CASE, (idx + 1) * CODES_PER_CASE)})
+        } else if idx < a + b {
+            json!({"part": "names", "names": sources().names.iter().skip((idx - a) as usize * NAMES_PER_CASE).take(NAMES_PER_CASE).map(|x| x.0.clone()).collect::<Vec<_>>()})
+        } else if idx == a + b {
+            json!({"part": "enums"})
+        } else {
+            json!({"part": "mapped", "config": make_mapped(ctx, idx - a - b - 1).cfg})
+        }
+    }
+    fn run_case(&self, ctx: &Ctx, idx: u64) -> CaseOut {
+        let mut out = CaseOut::new();
+        let (a, b) = (n_stepper(), n_names());
+        if idx < a {
+            run_stepper(&mut out, idx);
+            if idx == 3 {
+                out.sample = Some(json!({"part": "stepper", "config": identity_config(30, 0), "history": "d:A t:3 u:A t:3", "expected": "↓A ↑A", "modes": MODES}));
+            }
+        } else if idx < a + b {
+            run_names(&mut out, idx - a);
+            if idx == a {
+                out.sample = Some(json!({"part": "names", "config": name_config("lsft", 42).0}));
+            }
+        } else if idx == a + b {
+            run_enums(&mut out);
+        } else {
+            run_mapped(&mut out, ctx, idx - a - b - 1);
+        }
+        out
     }
     fn rule(&self) -> String {
-        "not implemented".into()
+        "Exhaustive and seed-independent: (1) every code 0..=766 that OsCode::from_u16 knows is pressed and released in a real Kanata in four configurations (named via deflocalkeys-linux and mapped to itself in defsrc/deflayer; `_`; `use-defsrc`; not in defsrc with process-unmapped-keys yes) and the OS stream must be press c / release c with the pinned KeyCode name of value c (nothing for 0 and 0x2a4..=0x2ad, mouse-button events for 272..=276, one scroll event for 745..=748); (2) every string literal of str_to_oscode and of its default-mapping table, extracted at run time from the current parser/src/keys/mod.rs, must denote its pinned code through str_to_oscode, in defsrc, as a layer action, as a deflayermap input, as fork trigger, as switch key / key-history / input item (each one-case switch evaluated for all 749 codes), in unmod, and on both sides of defoverrides; (3) for every code: from_u16/as_u16 round trip, u16::from(osc) == KeyCode::from(osc) as u16, reverse conversion, Debug names of both sides equal to pinned tables (OsCode names cross-checked with the kernel's input-event-codes.h), plus the enum declarations parsed from the current sources: same discriminant sets, no duplicate, every (variant, value) as pinned. Random: (4) configurations with random defsrc subsets, deflayermap inputs (also overlapping defsrc / excepted keys, with _ / __ / ___), process-unmapped-keys no | yes | (all-except ...), optional deflocalkeys; Cfg.mapped_keys must equal the set computed from that description. Non-trivial = accepted configuration / code / name; distinct = code, name, mapped-set class.".into()
     }
     fn assumptions(&self) -> Vec<String> {
-        vec![]
+        vec![
+            "the pinned tables (c11_ref.rs) are the meaning of 'the same code': KeyCode/OsCode variant name at each value and key name -> code as of the tree the check was written against, OsCode values cross-checked with /usr/include/linux/input-event-codes.h (546 names, 0 differences); a key name added later is checked against the declaration it is written next to and for consistency across positions only".into(),
+            "the mouse pseudo key names (mlft, mwu, …) are action keywords when written as an action, so the action position is skipped for them; code 0 cannot be a layer coordinate (index 0 of every layer is forced to no-op)".into(),
+            "whether codes 0 (KEY_RESERVED) and 240 (KEY_UNKNOWN = KeyCode::No) belong to 'all known keys' under process-unmapped-keys is not decided by the statement; their membership in mapped_keys is counted, not judged".into(),
+            "codes 749..=766 are unknown to OsCode::from_u16 and cannot be delivered by the OS layer; they are counted and skipped".into(),
+            "the Miri lane for the transmute is a separate crate (/verif/harness-miri) and not part of this in-process check".into(),
+        ]
+    }
+    fn floors(&self, _ctx: &Ctx) -> Vec<(&'static str, u64)> {
+        vec![
+            ("stepper_codes", 749),
+            ("stepper_runs", 2_996),
+            ("stepper_expected_identity", 729),
+            ("names", 500),
+            ("names_with_pinned_code", 500),
+            ("names_ok_defsrc", 500),
+            ("names_ok_action", 480),
+            ("names_ok_deflayermap_input", 500),
+            ("names_ok_fork", 500),
+            ("names_ok_switch-key", 500),
+            ("names_ok_switch-key-history", 500),
+            ("names_ok_switch-input", 500),
+            ("names_ok_unmod", 500),
+            ("names_ok_override_input", 500),
+            ("names_ok_override_output", 500),
+            ("codes_checked_natively", 750),
+            ("declared_variants_KeyCode", 768),
+            ("declared_variants_OsCode", 768),
+            ("mapped_configs", 5_000),
+            ("mapped_small_sets", 300),
+            ("mapped_process_unmapped_sets", 500),
+        ]
+    }
+    fn exhaustive(&self, _ctx: &Ctx) -> bool {
+        true
     }
 }
